@@ -31,8 +31,10 @@ func recOutline(l RLayer, W, H float64) (subs [][]P2, verts []P2, err error) {
 				continue
 			}
 			n := 8
-			if sg.Kind != 'L' && sg.Kind != 'Z' {
+			if sg.Kind == 'A' {
 				n = 2 * curveN
+			} else if sg.Kind != 'L' && sg.Kind != 'Z' {
+				n = bezN
 			}
 			for k := 1; k <= n; k++ {
 				pl = append(pl, img(sg.At(float64(k)/float64(n))))
@@ -107,9 +109,12 @@ func roundTrip(c *hc.Ctx) {
 			// (arcs with radii at the correction threshold amplify the printed precision: not generated)
 			p = c.GenPath([]string{"L", "LQC", "LQC", "LZ"}[c.Intn(4)], 4, 2)
 		}
-		if p.Empty() || backtracks(p) {
-			c.Count("roundtrip-skip:empty-or-backtracking")
+		if p.Empty() {
+			c.Count("roundtrip-skip:empty")
 			continue
+		}
+		if backtracks(p) {
+			c.Count("roundtrip:backtracking-path") // kept since the LineTo reversal merge was fixed (219108c)
 		}
 		if c.Chance(0.8) {
 			ctx.SetFillColor(cols[c.Intn(len(cols))])
